@@ -39,14 +39,14 @@
 EXTENDS Integers, Sequences, FiniteSets, TLC
 
 NoBase == [p |-> "", n |-> ""]
-NoType == [p |-> "", n |-> "", rng |-> "", len |-> "", en |-> << >>, base |-> NoBase]
-NoEt == [base |-> "", rngs |-> << >>, lens |-> << >>, en |-> << >>, ids |-> {}]
+NoType == [p |-> "", n |-> "", rng |-> "", len |-> "", en |-> << >>, base |-> NoBase, mem |-> << >>, path |-> << >>]
+NoEt == [base |-> "", rngs |-> << >>, lens |-> << >>, en |-> << >>, ids |-> {}, mems |-> << >>, path |-> << >>, tgt |-> ""]
 
 St(k, n) == [k |-> k, n |-> n, ref0 |-> [p |-> "", g |-> ""], cfg |-> "", mand |-> "", dflt |-> "", desc |-> "", iff |-> "",
              keys |-> << >>, c |-> << >>, gs |-> << >>, ref |-> << >>, aug |-> << >>,
              ty |-> NoType, units |-> "", tds |-> << >>, et |-> NoEt]
 
-Builtins == {"identityref", "binary", "string", "int8", "int16", "int32", "int64", "uint8", "uint16", "uint32", "uint64", "boolean", "enumeration", "decimal64"}
+Builtins == {"bits", "union", "leafref", "identityref", "binary", "string", "int8", "int16", "int32", "int64", "uint8", "uint16", "uint32", "uint64", "boolean", "enumeration", "decimal64"}
 
 RECURSIVE Flatten(_)
 Flatten(ss) == IF ss = << >> THEN << >> ELSE Head(ss) \o Flatten(Tail(ss))
@@ -152,16 +152,34 @@ MainOf(ms) == "m"
 
 \* the derivation of a type statement (RFC 7950 7.3, 9): base built-in type, the restrictions
 \* stated along the chain (nearest first), and the default / units of the nearest typedef that has one
+\* a type as one string: what a union member, or the leaf a leafref points at, is
+RECURSIVE JoinWith(_, _)
+JoinWith(seq, sep) == IF seq = << >> THEN "" ELSE IF Len(seq) = 1 THEN seq[1] ELSE seq[1] \o sep \o JoinWith(Tail(seq), sep)
+
+EnumText(en) == JoinWith([ i \in DOMAIN en |-> en[i].l \o "=" \o ToString(en[i].v) ], ",")
+
+TypeSig(r) ==
+    IF r.base = "union" THEN "union[" \o JoinWith(r.mems, "|") \o "]"
+    ELSE r.base \o "(" \o JoinWith(r.rngs, ",") \o ";" \o JoinWith(r.lens, ",") \o ";" \o EnumText(r.en) \o ")"
+
+\* the derivation of a type statement (RFC 7950 7.3, 9): base built-in type, the restrictions
+\* stated along the chain (nearest first), and the default / units of the nearest typedef that has
+\* one; enum values and bit positions assigned (9.6.4.2, 9.7.4.2); the members of a union, each
+\* derived the same way, in order (9.12); the path of a leafref (9.9; what it points at depends on
+\* where the leaf ends up, see ResolveRefs)
 RECURSIVE ResolveType(_, _, _, _)
 ResolveType(ms, mod, scope, ty) ==
     LET own == IF ty.rng = "" THEN << >> ELSE << ty.rng >>
         ownLen == IF ty.len = "" THEN << >> ELSE << ty.len >> IN
     IF ty.p = "" /\ ty.n \in Builtins
     THEN [base |-> ty.n, rngs |-> own, lens |-> ownLen, en |-> NumberEnums(ty.en, -1), dflt |-> "", units |-> "",
-          idbase |-> ty.base, idmod |-> mod]
+          idbase |-> ty.base, idmod |-> mod,
+          mems |-> [ i \in DOMAIN ty.mem |-> TypeSig(ResolveType(ms, mod, scope, ty.mem[i])) ],
+          path |-> ty.path]
     ELSE LET l == LookupTd(ms, mod, scope, ty)
              inner == ResolveType(ms, l.mod, l.scope, l.td.ty)
          IN [base |-> inner.base, rngs |-> own \o inner.rngs, lens |-> ownLen \o inner.lens, en |-> inner.en, idbase |-> inner.idbase, idmod |-> inner.idmod,
+             mems |-> inner.mems, path |-> inner.path,
              dflt |-> IF l.td.dflt # "" THEN l.td.dflt ELSE inner.dflt,
              units |-> IF l.td.units # "" THEN l.td.units ELSE inner.units]
 
@@ -242,7 +260,8 @@ ExpandOne(ms, mod, on, scope, s) ==
     ELSE IF s.k \in {"leaf", "leaflist"} THEN
         \* the type is resolved where the leaf is written; what the leaf states itself wins
         LET r == ResolveType(ms, mod, scope, s.ty) IN
-        << [s EXCEPT !.et = [base |-> r.base, rngs |-> r.rngs, lens |-> r.lens, en |-> r.en, ids |-> Accepted(ms, MainOf(ms), r.idmod, r.idbase)],
+        << [s EXCEPT !.et = [base |-> r.base, rngs |-> r.rngs, lens |-> r.lens, en |-> r.en, ids |-> Accepted(ms, MainOf(ms), r.idmod, r.idbase),
+                            mems |-> r.mems, path |-> r.path, tgt |-> ""],
                      !.dflt = IF s.dflt # "" THEN s.dflt ELSE r.dflt,
                      !.units = IF s.units # "" THEN s.units ELSE r.units] >>
     ELSE LET kids == Expand(ms, mod, on, << [gs |-> s.gs, tds |-> s.tds] >> \o scope, s.c) IN
@@ -269,6 +288,49 @@ ApplyModuleAugs(ms, on, seq, augs) ==
              kids == Expand(ms, a.mod, on, << ModuleLevel(ms, a.mod) >>, a.c)
          IN ApplyModuleAugs(ms, on, AppendAt(seq, a.path, kids), Tail(augs))
 
+\* leafrefs: the path is followed in the finished tree from where the leaf stands (9.9.2: ".." is
+\* the parent, a leading "/" the top; names without prefix); what the leaf points at is a leaf, and
+\* its type - through further leafrefs - is the type users see.  (Paths of this specification do
+\* not cross choices.)
+RECURSIVE MKidsAt(_, _)
+MKidsAt(root, ip) == IF ip = << >> THEN root ELSE MKidsAt(root[ip[1]].c, Tail(ip))
+
+RECURSIVE MNodeAt(_, _)
+MNodeAt(root, ip) == IF Len(ip) = 1 THEN root[ip[1]] ELSE MNodeAt(root[ip[1]].c, Tail(ip))
+
+RECURSIVE Ups(_)
+Ups(path) == IF path # << >> /\ Head(path) = ".." THEN 1 + Ups(Tail(path)) ELSE 0
+
+\* index path of the node reached from container index path `at' by the names
+RECURSIVE WalkNames(_, _, _)
+WalkNames(root, at, names) ==
+    IF names = << >> THEN at
+    ELSE LET i == IndexOfName(MKidsAt(root, at), Head(names)) IN
+         IF i = 0 THEN << 0 >> ELSE WalkNames(root, Append(at, i), Tail(names))
+
+TargetOf(root, ip, path) ==
+    IF Head(path) = "/" THEN WalkNames(root, << >>, Tail(path))
+    ELSE LET k == Ups(path) IN
+         IF k > Len(ip) THEN << 0 >>
+         ELSE WalkNames(root, SubSeq(ip, 1, Len(ip) - k), SubSeq(path, k + 1, Len(path)))
+
+RECURSIVE TargetSig(_, _, _)
+TargetSig(root, ip, fuel) ==
+    LET n == MNodeAt(root, ip) IN
+    IF n.et.base # "leafref" THEN TypeSig(n.et)
+    ELSE LET t == TargetOf(root, ip, n.et.path) IN
+         IF fuel = 0 \/ t = << 0 >> \/ t = << >> THEN "?"
+         ELSE IF MNodeAt(root, t).k \notin {"leaf", "leaflist"} THEN "?"
+         ELSE TargetSig(root, t, fuel - 1)
+
+RECURSIVE ResolveRefs(_, _, _)
+ResolveRefs(root, seq, at) ==
+    [ i \in DOMAIN seq |->
+        LET s == seq[i] IN
+        IF s.k \in {"leaf", "leaflist"} THEN
+            (IF s.et.base = "leafref" THEN [s EXCEPT !.et.tgt = TargetSig(root, Append(at, i), 4)] ELSE s)
+        ELSE [s EXCEPT !.c = ResolveRefs(root, s.c, Append(at, i))] ]
+
 \* effective properties
 RECURSIVE Effective(_, _)
 Effective(seq, inherited) ==
@@ -285,7 +347,8 @@ Meaning(ms, main, on) ==
         own == Expand(ms, main, on, top, m.body)
         subs == SubBodies(ms, on, m.includes, "body")
         augs == [ i \in DOMAIN m.augs |-> [m.augs[i] EXCEPT !.mod = main] ] \o SubBodies(ms, on, m.includes, "augs")
-    IN Effective(ApplyModuleAugs(ms, on, own \o subs, augs), TRUE)
+        tree == ApplyModuleAugs(ms, on, own \o subs, augs)
+    IN Effective(ResolveRefs(tree, tree, << >>), TRUE)
 
 -----------------------------------------------------------------------------
 (* comparison of an observed compiled tree with the meaning: first difference *)
@@ -318,7 +381,11 @@ Diff(want0, got, unordered) ==
     ELSE IF \E i \in DOMAIN want : want[i].k \in {"leaf", "leaflist"} /\ want[i].et.base # got[i].et.base THEN "base-type-differs"
     ELSE IF \E i \in DOMAIN want : want[i].k \in {"leaf", "leaflist"} /\ want[i].et.rngs # got[i].et.rngs THEN "accumulated-ranges-differ"
     ELSE IF \E i \in DOMAIN want : want[i].k \in {"leaf", "leaflist"} /\ want[i].et.lens # got[i].et.lens THEN "accumulated-lengths-differ"
-    ELSE IF \E i \in DOMAIN want : want[i].k \in {"leaf", "leaflist"} /\ want[i].et.en # got[i].et.en THEN "enum-values-differ"
+    ELSE IF \E i \in DOMAIN want : want[i].k \in {"leaf", "leaflist"} /\ want[i].et.en # got[i].et.en THEN
+        (IF \E i \in DOMAIN want : want[i].k \in {"leaf", "leaflist"} /\ want[i].et.en # got[i].et.en /\ want[i].et.base = "bits"
+         THEN "bit-positions-differ" ELSE "enum-values-differ")
+    ELSE IF \E i \in DOMAIN want : want[i].k \in {"leaf", "leaflist"} /\ want[i].et.mems # got[i].et.mems THEN "union-members-differ"
+    ELSE IF \E i \in DOMAIN want : want[i].k \in {"leaf", "leaflist"} /\ want[i].et.tgt # got[i].et.tgt THEN "leafref-target-differs"
     ELSE IF \E i \in DOMAIN want : want[i].k \in {"leaf", "leaflist"} /\ want[i].et.ids # { got[i].et.ids[j] : j \in DOMAIN got[i].et.ids }
          THEN "accepted-identities-differ"
     ELSE IF \E i \in DOMAIN want : Diff(want[i].c, got[i].c, want[i].k = "choice") # "ok" THEN
